@@ -81,6 +81,13 @@ func (e *connStatus) ReconnectsWithoutLock() uint64 {
 	return e.reconnects
 }
 
+// ConnectedGeneration returns the reconnect count while the status is Connected (ok=false otherwise).
+func (e *connStatus) ConnectedGeneration() (generation uint64, ok bool) {
+	e.RLock()
+	defer e.RUnlock()
+	return e.reconnects, e.current == connStatusConnected
+}
+
 // StartReconnectIfGeneration moves the status to Reconnecting on behalf of a caller whose request failed on
 // the connection of the given generation. If another reconnect has begun since (the failure is stale) the
 // status is left alone. It returns false only when the connection is closed.
